@@ -421,12 +421,25 @@ for g in kind_groups:
             for l_ in order:
                 plan.append((f_, l_))
 for opi in range(n_ops):
-    plan.append((rng.choice(['expr', 'expr', 'fncall1', 'fncall2', 'fncall3', 'fncall0', 'proxy', 'dset', 'dget', 'assign', 'undef', 'undeftest']), None))
+    plan.append((rng.choice(['expr', 'expr', 'sym', 'fncall1', 'fncall2', 'fncall3', 'fncall0', 'proxy', 'dset', 'dget', 'assign', 'undef', 'undeftest']), None))
+for u_ in range(6):
+    plan.insert(0, ('sym', None))
 for form, fixed_lit in plan:
     lit = rng.choice(lits); lit2 = rng.choice(lits); nm = rng.choice(names)
     if fixed_lit is not None:
         lit = fixed_lit
-    if form == 'exprlit':
+    if form == 'sym':
+        # a bare symbol as the command: f(:name) evaluates the name on the server (bound data, bound function -> proxy
+        # arity, and a name never bound, which evaluates to itself and becomes bound)
+        sname = rng.choice(names + ['sq', 'add', 'tri', 'nil', 'v', 'zq%%d' %% rng.randint(0, 40)])
+        def rsym_():
+            client['symarg'] = KGSym(sname)
+            return on_loop(client, cloops, 'cli(symarg)')
+        r = safe(rsym_); l = safe(lambda: twin(sname))
+        record(form, sname, r, l)
+        r = safe(lambda: on_loop(client, cloops, 'dcli?:%%s' %% sname)); l = safe(lambda: twin[KGSym(sname)])
+        record('dget', sname, r, l)
+    elif form == 'exprlit':
         t = lit
         r = safe(lambda: on_loop(client, cloops, 'cli("%%s")' %% t.replace('"', '""'))) ; l = safe(lambda: twin(t))
         record(form, t, r, l)
